@@ -1,14 +1,24 @@
 """C08 — well-formed per-peer connection and substream event stream of TransportService
 (model: Model/Service/{Conns,Order}.lean, adapter: src/verif/c08.rs)."""
+import glob
 import itertools
+import os
 from .common import bump
 
 ID = "C08"
 AREA = "c08"
 LEAN_PROPS = "Litep2pVerif.Props.C08"
 THEOREMS = ["alternation", "closed_iff_last", "substream_refers_connected", "open_answered_at_most_once",
-            "open_answered_once_unless_closed", "ids_fresh"]
-CONSTS = []
+            "open_answered_once_unless_closed", "ids_fresh", "outbound_open_answered_by_loop"]
+CONSTS = ["PROTOCOL_COMMAND_CHANNEL_SIZE", "YAMUX_MAX_ACK_BACKLOG"]
+_YAMUX = (sorted(glob.glob(os.path.expanduser("~/.cargo/registry/src/*/yamux-0.13.10/src/lib.rs")))
+          or sorted(glob.glob(os.path.expanduser("~/.cargo/registry/src/*/yamux-0.13*/src/lib.rs"))) or ["yamux/src/lib.rs"])[0]
+CONST_TABLE = [
+    # `ProtocolSet::new`: capacity of the connection's command channel (a full channel refuses an open request)
+    ("PROTOCOL_COMMAND_CHANNEL_SIZE", "src/protocol/protocol_set.rs", r"let \(tx, rx\) = channel\((\d+)\);", 256),
+    # yamux: outbound streams that may wait for the remote's acknowledgement; the next `open_stream()` waits
+    ("YAMUX_MAX_ACK_BACKLOG", _YAMUX, r"const MAX_ACK_BACKLOG: usize = (\d+);", 256),
+]
 MANIFEST = {
     "text": "Lean 4 theorems about an operational model of TransportService::{on_connection_established, "
             "on_connection_closed, open_substream} and its event paths: alternation and ids_fresh for EVERY history "
@@ -18,7 +28,18 @@ MANIFEST = {
             "can produce, written as an explicit acceptor. Tie: the real TransportService with injected "
             "InnerTransportEvents and harness-owned command receivers is run against the model's executable definitions "
             "(state compared after every drain), plus a property-level grammar oracle on the emitted event stream; thorough "
-            "enumerates every panic-free event order: 1 peer x 3 connections with repetition up to length 7, 2 peers x 2 connections (each event once) up to length 8, 2 peers x 3 connections up to length 5.",
+            "enumerates every panic-free event order: 1 peer x 3 connections with repetition up to length 7, 2 peers x 2 connections (each event once) up to length 8, 2 peers x 3 connections up to length 5. "
+            "outbound_open_answered_by_loop discharges the connection-task half of that environment hypothesis for the TCP "
+            "connection task (model Model/Conn/Permits.lean: requested -> yamux open pending -> negotiating -> answered): for "
+            "every schedule a pending request stays pending, for the same protocol, until its own future ends; the failure/"
+            "timeout arm is enabled in either pending stage and sends SubstreamOpenFailure for that request to the protocol "
+            "that asked (at once, or suspended on its full channel); success likewise under a main or fallback name; an entry "
+            "that has left pending_substreams never comes back (at most once). Tie: the REAL TcpConnection::start loop over "
+            "loopback TCP (tcploop area, checker mode) with substream ids in every observation: bursts of requests beyond the "
+            "yamux ACK backlog (256) and beyond the command channel (256, ChannelClogged) against a remote that never "
+            "acknowledges, small substream_open_timeout, then a wait past it; remotes knowing only a fallback name; judged by "
+            "the property-level oracle tcploop.oracle_c08 (every answer carries the id of a request of THAT protocol, at most "
+            "once; every request is answered once the timeout has passed while the connection is open).",
     "note": "Trusted: Lean kernel; axioms propext/Classical.choice/Quot.sound; the hand-written model and its tie; the "
             "environment assumptions of Order.lean (manager cap and report order are C06/C07; tokio mpsc FIFO); keep-alive "
             "(Active/Inactive handles) enters the C08 model only as the arbitrary outcome of try_get_permit (C09 covers it).",
@@ -26,7 +47,10 @@ MANIFEST = {
                  "correspondence check + exhaustive small-scope enumeration of event orders",
     "design_ref": "DESIGN.md §7 C08",
 }
-RULE = ("seeded histories over 2 peers x up to 3 connections each: a feasible stream (environment simulated: <=2 live "
+RULE = ("tcploop (extra area): fixed, burst (257-300 open requests in chunks or beyond the command channel, remote=stall, "
+        "sot=300/500 ms, sleep timeout+500 ms, then inbound substream / new request / close / idle), small stalls, fallback-name, "
+        "hold, accept, half-close, race, span and random families of checks/tcploop.py with focus C08; c08: "
+        "seeded histories over 2 peers x up to 3 connections each: a feasible stream (environment simulated: <=2 live "
         "connections, closes of live connections in either order, opens, command receipt, answers by success/failure, "
         "dropped tasks, clogged channels of capacity 1-3, foreign id allocations) and an infeasible stream (third "
         "connections, closes of unknown connections, duplicate/unknown answers, repeated ids); every case ends by "
@@ -38,8 +62,15 @@ TRUSTED_BASE = ["Lean 4.33 kernel", "axioms: propext, Classical.choice, Quot.sou
                 "harness, verif.py, checks/c08.py",
                 "tokio mpsc channels are FIFO with try_send = Closed | Full | Ok as documented",
                 "environment assumptions of Order.lean: manager admits <= 2 connections per peer and is told about a close "
-                "after the protocols (C06/C07), connection ids and substream ids come from shared counters"]
+                "after the protocols (C06/C07), connection ids and substream ids come from shared counters",
+                "tcploop area (adapter /repo/src/verif/tcploop.rs, model Model/Conn/Permits.lean, driver Driver/Tcploop.lean, "
+                "checks/tcploop.py): real time passes only in `sleep`; the oracle's timeout rule needs the adapter's wall clock to "
+                "advance by the requested amount; on a connection built with sot= the driver takes WHICH outbound requests timed "
+                "out during an operation from the implementation's observation (it cannot know the clock) and checks everything else",
+                "yamux (crate yamux 0.13.10 + litep2p's Control wrapper) is not modelled beyond: open_stream() may never return"]
 ASSUMPTIONS = ["the keep-alive timeout of the adapter (1 h) does not expire during a case, so handles stay Active",
+               "tcploop timeout rule: a request that was accepted before a `sleep` of at least substream_open_timeout + 400 ms "
+               "is taken by the connection task at the start of that operation at the latest (nobody paused, no channel filled)",
                "cooperative scheduling budget of tokio does not hide queued events (the adapter polls until Pending twice)"]
 KEEP_PREFIX = 1
 PEERS = [1, 2]
@@ -523,9 +554,17 @@ def extra_cases(rng, tier):
     from . import c09
     k = {"quick": 250, "thorough": 4000, "search": 500}[tier]
     yield "C09", list(itertools.islice(c09.gen_cases(rng, "quick" if tier != "thorough" else "search"), k))
+    # the connection task's side of "answered exactly once unless the connection terminates first": the REAL
+    # `TcpConnection::start` loop over loopback TCP (tcploop area) — open requests in bursts beyond the yamux ACK
+    # backlog, remotes that never answer, small substream_open_timeout, fallback names; judged by `tcploop.oracle_c08`
+    from . import tcploop
+    yield "TCPLOOP", tcploop.gen_cases(rng, tier, focus="C08")
 
 
 def oracle_extra(xpid, case, out):
+    if xpid == "TCPLOOP":
+        from . import tcploop
+        return [dict(v, msg="(real TcpConnection loop, tcploop area) " + v["msg"]) for v in tcploop.oracle_c08(case, out)]
     if xpid == "C09":
         from . import c09
         return [dict(v, msg="(keep-alive service, C09 area) " + v["msg"]) for v in c09.oracle(case, out)
@@ -535,6 +574,10 @@ def oracle_extra(xpid, case, out):
 
 
 def stats_extra(xpid, case, out, acc):
+    if xpid == "TCPLOOP":
+        from . import tcploop
+        tcploop.stats(case, out, acc)
+        return
     if xpid == "C09":
         bump(acc, "extra:C09")
         return
